@@ -874,7 +874,10 @@ impl ContinuityStore {
         };
 
         let workspace = workspace_key(&self.workspace_root);
-        let thread_id = self.create_continuity(workspace, None, title, false)?;
+        // One critical section for the creation frame, the lineage frame and the counter.
+        let mut next_seq = self.next_seq.lock().expect("continuity seq mutex");
+        let thread_id =
+            self.create_continuity_locked(&mut next_seq, workspace, None, title, false)?;
 
         let event = Event {
             id: Uuid::new_v4().to_string(),
@@ -895,10 +898,7 @@ impl ContinuityStore {
         self.stream_cache.append_best_effort(&event);
         let _ = self.sender.send(event.clone());
 
-        self.next_seq
-            .lock()
-            .expect("continuity seq mutex")
-            .insert(thread_id.clone(), 2);
+        next_seq.insert(thread_id.clone(), 2);
 
         Ok((thread_id, parent_seq, parent_message_id))
     }
@@ -984,7 +984,10 @@ impl ContinuityStore {
         };
 
         let workspace = workspace_key(&self.workspace_root);
-        let thread_id = self.create_continuity(workspace, None, title, false)?;
+        // One critical section for the creation frame, the lineage frame and the counter.
+        let mut next_seq = self.next_seq.lock().expect("continuity seq mutex");
+        let thread_id =
+            self.create_continuity_locked(&mut next_seq, workspace, None, title, false)?;
 
         if summary_artifact_id.is_none() {
             if let Some(markdown) = summary_markdown.as_ref() {
@@ -1022,10 +1025,7 @@ impl ContinuityStore {
         self.stream_cache.append_best_effort(&event);
         let _ = self.sender.send(event.clone());
 
-        self.next_seq
-            .lock()
-            .expect("continuity seq mutex")
-            .insert(thread_id.clone(), 2);
+        next_seq.insert(thread_id.clone(), 2);
 
         Ok((thread_id, from_seq, from_message_id))
     }
@@ -3509,7 +3509,31 @@ impl ContinuityStore {
         title: Option<String>,
         set_as_default: bool,
     ) -> Result<String, String> {
+        let mut next_seq = self.next_seq.lock().expect("continuity seq mutex");
+        self.create_continuity_locked(
+            &mut next_seq,
+            workspace,
+            continuity_id,
+            title,
+            set_as_default,
+        )
+    }
+
+    /// Writes the creation frame (seq 0) and publishes the thread while the caller holds the seq
+    /// lock, and sets the thread's counter through that same guard: no other writer can take a
+    /// seq for the new thread before its counter exists.
+    fn create_continuity_locked(
+        &self,
+        next_seq: &mut HashMap<String, u64>,
+        workspace: String,
+        continuity_id: Option<String>,
+        title: Option<String>,
+        set_as_default: bool,
+    ) -> Result<String, String> {
         let continuity_id = continuity_id.unwrap_or_else(|| Uuid::new_v4().to_string());
+        if next_seq.contains_key(&continuity_id) {
+            return Err(format!("continuity already exists: {continuity_id}"));
+        }
         let timestamp_ms = now_ms();
         let created = Event {
             id: Uuid::new_v4().to_string(),
@@ -3544,10 +3568,7 @@ impl ContinuityStore {
                 .map_err(|err| format!("save continuity index: {err}"))?;
         }
 
-        self.next_seq
-            .lock()
-            .expect("continuity seq mutex")
-            .insert(continuity_id.clone(), 1);
+        next_seq.insert(continuity_id.clone(), 1);
 
         Ok(continuity_id)
     }
